@@ -119,7 +119,7 @@ def run_case(binary, case, root, tag, watchdog=None):
     res = {"rc": rc, "timed_out": timed_out, "wall": round(wall, 3), "stdout_tail": out_t[-600:],
            "stderr_tail": err_t[-900:], "dir": d}
     lines = [l for l in out_t.split("\n") if l.strip()]
-    res["last_line"] = lines[-1] if lines else ""
+    res["last_line"] = (lines[-1] if lines else "")[:200]
     res["analysed"] = out_t.count("circomspect: analyzing ")
     res["codes"] = sorted(set(re.findall(r"\[(CS\d{4}|P\d{4}|[A-Z]{1,3}\d{3,4})\]", out_t)))
     res["heads"] = sorted(set(re.findall(r"(?m)^(error|warning|note|info)(?:\[[^\]]*\])?:", out_t)))
@@ -571,7 +571,7 @@ def adversarial_cases(ctx, stats, thorough):
                                             for i in range(10 ** 4 if thorough else 2000)),
         note="10^4 definitions in the thorough tier (300 kB, beyond `modest size`)")
     for name, fn in FLAT_SHAPES.items():
-        for n in ((60, 120) if not thorough else (60, 120, 250, 400, 1000, 2000)):
+        for n in ((60, 120) if not thorough else (60, 120, 250, 500, 1000)):
             add("flat:%s-%d" % (name, n), fn(n))
     add("params-1000", "template T(%s) { }\ncomponent main = T(%s);\n" % (", ".join("p%d" % i for i in range(1000)),
                                                                               ", ".join("1" for _ in range(1000))))
@@ -730,29 +730,39 @@ def longest_definition(data):
 LONG_DEFINITION = 128
 
 
-def classify_known(ctx, case, res, binary=None, root=None):
-    """The recorded classes are narrow and syntactic:
+LONG_WATCHDOG_S = 300
+
+
+def classify_cheap(ctx, case, res):
+    """-> a known-finding record, the string "needs-long-run", or None.
+    The recorded classes are narrow and syntactic:
     C01-stack-depth (D25): killed by the stack guard (SIGABRT/SIGSEGV with the
       runtime's `has overflowed its stack` message) AND the input nests deeper
       than MODEST_DEPTH syntax-tree levels by the estimate;
-    C01-deep-nesting-time: time-out AND nesting estimate > MODEST_DEPTH;
+    C01-deep-nesting-resources: time-out, or allocation failure under the
+      address-space limit, AND nesting estimate > MODEST_DEPTH;
     C01-long-definition-time: time-out AND a definition with more than
       LONG_DEFINITION statements AND the run does end on its own with status
-      0/1 and a summary line under a 6x watchdog."""
+      0/1 and a summary line under the long watchdog (checked by a re-run)."""
     ids = {k["id"]: k for k in ctx.known}
     deepest = max([nesting_depth(v) for v in case.files.values()] + [0])
     if res.get("panic") == "stack overflow" and res.get("rc") in (-6, -11) and deepest > MODEST_DEPTH:
         return ids.get("C01-stack-depth")
-    if res.get("timed_out"):
-        if deepest > MODEST_DEPTH:
-            return ids.get("C01-deep-nesting-time")
-        if max([longest_definition(v) for v in case.files.values()] + [0]) > LONG_DEFINITION and binary:
-            if "C01-long-definition-time" in ids:
-                r = run_case(binary, case, root, "long", watchdog=6 * WATCHDOG_S)
-                res["rerun_long_watchdog"] = {"rc": r["rc"], "wall": r["wall"], "last_line": r["last_line"]}
-                if not judge(r):
-                    return ids["C01-long-definition-time"]
+    if (res.get("timed_out") or res.get("panic") == "memory allocation failed") and deepest > MODEST_DEPTH:
+        return ids.get("C01-deep-nesting-resources")
+    if res.get("timed_out") and "C01-long-definition-time" in ids \
+            and max([longest_definition(v) for v in case.files.values()] + [0]) > LONG_DEFINITION:
+        return "needs-long-run"
     return None
+
+
+def classify_known(ctx, case, res, binary=None, root=None):
+    k = classify_cheap(ctx, case, res)
+    if k == "needs-long-run":
+        r = run_case(binary, case, root, "long-%d" % (id(case) % 100000), watchdog=LONG_WATCHDOG_S)
+        res["rerun_long_watchdog"] = {"rc": r["rc"], "wall": r["wall"], "last_line": r["last_line"], "timed_out": r["timed_out"]}
+        return None if judge(r) else {k2["id"]: k2 for k2 in ctx.known}["C01-long-definition-time"]
+    return k
 
 
 # --------------------------------------------------------------------------
@@ -819,13 +829,17 @@ def run(ctx, proofs):
                 failures.append((bname, binary, c, r, bad))
             else:
                 shutil.rmtree(r["dir"], ignore_errors=True)
-    # a time-out observed while 16 processes ran side by side is re-measured alone
-    rerun_alone = 0
-    for i, (bname, binary, c, r, bad) in enumerate(failures):
-        if r["timed_out"] and rerun_alone < 12:
-            rerun_alone += 1
-            r2 = run_case(binary, c, os.path.join(root, "alone-" + bname), i)
-            failures[i] = (bname, binary, c, r2, judge(r2))
+    # a time-out observed while 16 processes ran side by side is re-measured under light load
+    to_idx = [i for i, f in enumerate(failures) if f[3]["timed_out"]]
+
+    def remeasure(i):
+        bname, binary, c, r, bad = failures[i]
+        r2 = run_case(binary, c, os.path.join(root, "alone-" + bname), i)
+        return i, r2
+    with concurrent.futures.ThreadPoolExecutor(max_workers=4) as ex:
+        for i, r2 in ex.map(remeasure, to_idx):
+            failures[i] = failures[i][:3] + (r2, judge(r2))
+    rerun_alone = len(to_idx)
     failures = [f for f in failures if f[4]]
     run_s = time.time() - t_run
 
@@ -834,13 +848,14 @@ def run(ctx, proofs):
     # is shrunk and reported.
     seen = {}
     known_cases = collections.Counter()
-    long_reruns = 0
-    for bname, binary, c, r, bad in failures:
-        k = None
-        if not (r["timed_out"] and long_reruns >= 4):
-            k = classify_known(ctx, c, r, binary, os.path.join(root, "long-" + bname))
-            if "rerun_long_watchdog" in r:
-                long_reruns += 1
+
+    def classify(i):
+        bname, binary, c, r, bad = failures[i]
+        return i, classify_known(ctx, c, r, binary, os.path.join(root, "long-" + bname))
+    with concurrent.futures.ThreadPoolExecutor(max_workers=8) as ex:
+        verdicts = dict(ex.map(classify, range(len(failures))))
+    for i, (bname, binary, c, r, bad) in enumerate(failures):
+        k = verdicts[i]
         if k:
             known_cases[k["id"]] += 1
             ctx.known_finding(k["id"], k["what"])
